@@ -1199,7 +1199,7 @@ impl Interpreter {
                                 // The run died: do not leave its scopes installed
                                 self.abort_active_execution();
                                 let guarded = Guarded::from_value(error_msg, &self.heap);
-                                return Err(JsError::thrown(guarded));
+                                return Err(self.materialize_thrown_error(JsError::thrown(guarded)));
                             }
                         }
                     }
@@ -1255,7 +1255,9 @@ impl Interpreter {
                                     // The run died: do not leave its scopes installed
                                     self.abort_active_execution();
                                     let guarded = Guarded::from_value(result_value, &self.heap);
-                                    return Err(JsError::thrown(guarded));
+                                    return Err(
+                                        self.materialize_thrown_error(JsError::thrown(guarded))
+                                    );
                                 }
                             }
                             PromiseStatus::Pending => {
